@@ -197,6 +197,22 @@ fn flush(run: &mut Run, kind: Kind, list: &[Tr], g: bool, panics: Vec<String>, f
     }
 }
 
+/// sequence-averaged whitespace F1 of the singleton list [("a","a","a")] (no operation at all)
+fn canonical_zero_value(m: usize, g: bool, bi: usize) -> Option<[f64; 3]> {
+    use std::sync::Mutex;
+    static CACHE: Mutex<Vec<((usize, bool, usize), Option<[f64; 3]>)>> = Mutex::new(Vec::new());
+    let key = (m, g, bi);
+    if let Some((_, v)) = CACHE.lock().unwrap().iter().find(|(k, _)| *k == key) {
+        return *v;
+    }
+    let v = match call_f1(Kind::Whitespace(m), &[["a", "a", "a"]], BETAS[bi], true, g) {
+        Ok(Ok(((f, p, r), _))) => Some([f, p, r]),
+        _ => None,
+    };
+    CACHE.lock().unwrap().push((key, v));
+    v
+}
+
 /// One triple as a list of one: accessor counts, the F1 function over beta x sequence_averaged, and
 /// every singleton clause. With `report == false` only what the list laws need is computed and
 /// nothing is counted or reported.
@@ -288,6 +304,10 @@ fn eval_single(run: &mut Run, kind: Kind, t: Tr, g: bool, report: bool) -> Singl
                     out.seq[bi] = Some(got);
                 }
                 if let Some((nothing, tp, fp, fn_)) = out.counts {
+                    // for the whitespace F1 "nothing to correct and nothing predicted" is derived from
+                    // the counts (tp + fn = ground-truth operations, tp + fp = predicted operations),
+                    // not taken from the library's own flag
+                    let nothing = if matches!(kind, Kind::Whitespace(_)) { tp + fp + fn_ == 0 } else { nothing };
                     let want = f_beta(tp, fp, fn_, beta);
                     if !avg {
                         run.compared += 1;
@@ -299,6 +319,16 @@ fn eval_single(run: &mut Run, kind: Kind, t: Tr, g: bool, report: bool) -> Singl
                         run.compared += 1;
                         if !close(&got, &want) {
                             found.add("sequence-value-is-f-beta-of-counts", || format!("beta={beta}: sequence-averaged singleton {got:?}, F_beta of the counts (tp={tp}, fp={fp}, fn={fn_}) is {want:?}"));
+                        }
+                    } else if let Kind::Whitespace(m) = kind {
+                        // a per-sequence value is determined by the sequence's counts: every sequence
+                        // with counts (0,0,0) must score like the plainest one, ("a","a","a"); which
+                        // value that is (the statement does not say) is not judged
+                        if let Some(canon) = canonical_zero_value(m, g, bi) {
+                            run.compared += 1;
+                            if !close(&got, &canon) {
+                                found.add("sequence-value-determined-by-counts", || format!("beta={beta}: this sequence has counts tp=fp=fn=0 and scores {got:?}, the sequence (\"a\",\"a\",\"a\") has the same counts and scores {canon:?}"));
+                            }
                         }
                     }
                     if matches!(kind, Kind::Whitespace(_)) && !info_checked {
